@@ -262,6 +262,53 @@ fn concurrent_case(prop: &str, idx: u64, root: &Path) -> CaseRec {
     CaseRec { op: format!("namer - {0},{0},{0}", hex(b"doc.md")), impl_out: format!("{},{},{}", hex(b"doc.md"), hex(b"doc.md-1"), hex(b"doc.md-2")), oracle_fail: keep(prop, fails), nontrivial: false, tags: vec!["e2e:concurrent".into()] }
 }
 
+/// an early abort (execution error in a later document) right after a document that left a large
+/// tree behind: everything must still be gone when scrut exits
+fn abort_after_big_case(prop: &str, idx: u64, root: &Path) -> CaseRec {
+    let dir = root.join(format!("abort-{idx}"));
+    let _ = std::fs::remove_dir_all(&dir);
+    let tmp = dir.join("tmp");
+    let user = dir.join("userwork");
+    std::fs::create_dir_all(&tmp).unwrap();
+    std::fs::create_dir_all(&user).unwrap();
+    let big = dir.join("1-big.md");
+    std::fs::write(&big, "# big\n\n```scrut\n$ mkdir -p a/b \"$TMPDIR/t\" && for i in $(seq 1 6000); do : > a/b/f$i; : > \"$TMPDIR/t/g$i\"; done; echo ok\nok\n```\n").unwrap();
+    let second = if idx % 2 == 0 {
+        let p = dir.join("2-exec-error.t");
+        std::fs::write(&p, "t\n  $ echo a\n  a\n\n  $ exit 3\n\n  $ echo never\n  never\n").unwrap();
+        p
+    } else {
+        let p = dir.join("2-no-shell.md");
+        std::fs::write(&p, "---\nshell: /nonexistent/shell\n---\n\n# t\n\n```scrut\n$ echo a\na\n```\n").unwrap();
+        p
+    };
+    let workdir = idx / 2 % 2 == 1;
+    let mut cmd = std::process::Command::new(scrut_bin());
+    cmd.arg("test");
+    if workdir {
+        cmd.arg("--work-directory").arg(&user);
+    }
+    let out = cmd.arg(&big).arg(&second).current_dir(&dir).env("TMPDIR", &tmp).output().expect("run scrut");
+    let code = out.status.code().unwrap_or(-1);
+    let count = |d: &Path| -> usize { std::fs::read_dir(d).map(|r| r.count()).unwrap_or(0) };
+    let mut fails = vec![];
+    if code != 1 {
+        fails.push(("C18:abort-scenario-exit".into(), format!("expected the run to abort with exit 1, got {code}")));
+    }
+    let left_tmp = count(&tmp);
+    if left_tmp != 0 {
+        fails.push(("C18:leftover-after-abort".into(), format!("TMPDIR holds {left_tmp} entries right after scrut exited with {code} (a document with a large work tree followed by an aborting document)")));
+    }
+    if workdir {
+        let temp_left: Vec<String> = std::fs::read_dir(&user).map(|r| r.filter_map(|e| e.ok()).map(|e| e.file_name().to_string_lossy().to_string()).filter(|n| n.starts_with("temp.")).collect()).unwrap_or_default();
+        if !temp_left.is_empty() {
+            fails.push(("C18:leftover-after-abort".into(), format!("--work-directory still holds {:?}", temp_left)));
+        }
+    }
+    let _ = std::fs::remove_dir_all(&dir);
+    CaseRec { op: format!("namer - {0},{0}", hex(b"doc.md")), impl_out: format!("{},{}", hex(b"doc.md"), hex(b"doc.md-1")), oracle_fail: keep(prop, fails), nontrivial: false, tags: vec!["e2e:abort-after-big".into()] }
+}
+
 pub fn run(ctx: &Ctx, prop: &str) {
     let root = std::env::temp_dir().join(format!("scrut-verif-envdir-{}", std::process::id()));
     std::fs::create_dir_all(&root).unwrap();
@@ -301,6 +348,8 @@ pub fn run(ctx: &Ctx, prop: &str) {
     ctx.run_stream("e2e-runs", if ctx.thorough { 300 } else { 40 }, false, |idx| Some(e2e_case(prop, idx, seed, &r2)));
     let r2 = root.clone();
     ctx.run_stream("e2e-concurrent", if ctx.thorough { 10 } else { 2 }, false, |idx| Some(concurrent_case(prop, idx, &r2)));
+    let r2 = root.clone();
+    ctx.run_stream("e2e-abort-after-big", if ctx.thorough { 16 } else { 4 }, false, |idx| Some(abort_after_big_case(prop, idx, &r2)));
     let _ = std::fs::remove_dir_all(&root);
 }
 
